@@ -66,3 +66,29 @@ VARIANTS += [
  dict(id='c10-p8ref1-enum-rule-swapped', prop='C10', base='P8-REF1', expect='C10', file='scared/aes/base.py',
       old="    if col % cols_in == 0:\n        return _ColumnRule.ROT_SUB_RCON\n", new="    if col % cols_in == 0:\n        return _ColumnRule.SUB\n"),
 ]
+
+VARIANTS += [
+ dict(id='c10-view-of-the-key-argument', prop='C10', expect='C10-D5', file='scared/des/base.py',
+      old="        key_bits[:, current_key_byte * 8 + 0] = ((key[:, current_key_byte] & 0x80) != 0x00)\n",
+      new="        key_bits[:, current_key_byte * 8 + 0] = ((key.view(_np.uint8)[:, current_key_byte] & 0x80) != 0x00)\n"),
+]
+
+_OLD_BITS = """    # we allocate the table that will contain splitted key bits
+    key_bits = _np.empty((key.shape[0], 64), dtype=_np.uint8)
+    # split the key into bits
+    for current_key_byte in _np.arange(8):
+        key_bits[:, current_key_byte * 8 + 0] = ((key[:, current_key_byte] & 0x80) != 0x00)
+        key_bits[:, current_key_byte * 8 + 1] = ((key[:, current_key_byte] & 0x40) != 0x00)
+        key_bits[:, current_key_byte * 8 + 2] = ((key[:, current_key_byte] & 0x20) != 0x00)
+        key_bits[:, current_key_byte * 8 + 3] = ((key[:, current_key_byte] & 0x10) != 0x00)
+        key_bits[:, current_key_byte * 8 + 4] = ((key[:, current_key_byte] & 0x08) != 0x00)
+        key_bits[:, current_key_byte * 8 + 5] = ((key[:, current_key_byte] & 0x04) != 0x00)
+        key_bits[:, current_key_byte * 8 + 6] = ((key[:, current_key_byte] & 0x02) != 0x00)
+        key_bits[:, current_key_byte * 8 + 7] = ((key[:, current_key_byte] & 0x01) != 0x00)
+"""
+VARIANTS += [
+ dict(id='c10-silent-unpackbits-of-converted-key', prop='C10', kind='silent', file='scared/des/base.py', old=_OLD_BITS,
+      new="    key_bits = _np.unpackbits(key.astype(_np.uint8), axis=1, count=64)\n"),
+ dict(id='c10-unpackbits-little-endian-bits', prop='C10', expect='C10-D1', file='scared/des/base.py', old=_OLD_BITS,
+      new="    key_bits = _np.unpackbits(key.astype(_np.uint8), axis=1, count=64)[:, ::-1]\n", allow_undecided=True),
+]
